@@ -51,7 +51,7 @@ def encode_chain(data: bytes, chain, password=None, iv=None, salt=b"", cycles=10
         mid = METHOD[f["id"]]
         insize = len(cur)
         if mid == C.M_AES:
-            cur, props = C.aes_encrypt(cur, password, f.get("cycles", cycles), f.get("salt", salt), f.get("iv", iv if iv is not None else bytes(range(1, 17))))
+            cur, props = C.aes_encrypt(cur, password, f.get("cycles", cycles), bytes.fromhex(f["salt_hex"]) if "salt_hex" in f else f.get("salt", salt), f.get("iv", iv if iv is not None else bytes(range(1, 17))))
         else:
             cur, props = C.encode(mid, cur, f)
         stages.append({"id": mid, "props": props, "outsize": insize})
